@@ -148,10 +148,14 @@ inline bool Futex::Awaitable::await_suspend(
   node->id = id;
   node->promise = &handle.promise();
   node->handle = handle;
+  // Once add_awaiter succeed, the coroutine can be resumed and destroyed by
+  // others at any time, so **this** (lives in coroutine frame) must not be
+  // touched after that. Take the callback out beforehand.
+  auto on_suspend = ::std::move(_on_suspend);
   auto success = _futex->add_awaiter(node, _expected_value);
   BABYLON_VERIF_POINT("cofutex:awaiter_added");
-  if (success && _on_suspend) {
-    _on_suspend({id});
+  if (success && on_suspend) {
+    on_suspend({id});
   }
   if (!success) {
     // Value not match, node is never linked and id is never shared. Take it
